@@ -108,11 +108,14 @@ var c06pids = []peer.ID{"P"}
 
 const c06ttlUnits = 2 // time-to-live in clock units
 
-func c06unit() time.Duration {
+// time-to-live: 2 clock units. Native replay: one clock unit = 150 ms of real
+// time and the TTL gets half a unit of slack so that "exactly at the deadline"
+// (not expired in the model) is not decided by scheduling jitter.
+func c06ttl() time.Duration {
 	if verif_Symbolic() {
-		return time.Second
+		return c06ttlUnits * time.Second
 	}
-	return 150 * time.Millisecond // native replay: one clock unit = 150 ms of real time
+	return c06ttlUnits*150*time.Millisecond + 75*time.Millisecond
 }
 
 type c06world struct {
@@ -133,7 +136,7 @@ func c06new() *c06world {
 	for _, n := range []string{"s1", "s2"} {
 		w.srcs = append(w.srcs, &c06src{name: n, ctx: w.cx, content: map[peer.ID]c06entry{}})
 	}
-	w.pc = &ProviderCache{sources: []ProviderSource{w.srcs[0], w.srcs[1]}, ttl: c06ttlUnits * c06unit(), write: make(map[peer.ID]*cacheInfo), writeLock: make(chan struct{}, 1)}
+	w.pc = &ProviderCache{sources: []ProviderSource{w.srcs[0], w.srcs[1]}, ttl: c06ttl(), write: make(map[peer.ID]*cacheInfo), writeLock: make(chan struct{}, 1)}
 	verif_SetClock(0)
 	return w
 }
@@ -217,6 +220,14 @@ func (w *c06world) lookup() {
 	for _, s := range w.srcs {
 		s.fail = false
 	}
+	if !w.visible[pid] && !w.knownAbsent[pid] {
+		// the sources' current content is arbitrary when the provider was never cached
+		for _, s := range w.srcs {
+			ti := verif_Int(s.name + "MissTime")
+			verif_Assume(ti >= 0 && ti <= 3)
+			s.content[pid] = c06entry{present: verif_Bool(s.name + "HasOnMiss"), ti: ti}
+		}
+	}
 	before := w.fetches()
 	got, gerr := w.pc.Get(context.Background(), pid)
 	fetched := w.fetches() - before
@@ -231,6 +242,11 @@ func (w *c06world) lookup() {
 		w.shown[pid] = ti
 		if fetched > 0 {
 			w.visible[pid] = true
+			for _, s := range w.srcs {
+				if e := s.content[pid]; e.present {
+					verif_Assert(ti >= e.ti, "a lookup miss caches the record with the most recent advertisement time among the sources")
+				}
+			}
 		}
 	} else if !w.visible[pid] {
 		if fetched > 0 {
@@ -321,6 +337,25 @@ func VerifC06_Expiry() {
 		if verif_Bool("tick") {
 			w.tick()
 		}
+		w.refreshAbsent()
+	}
+	verif_Reach("history done")
+}
+
+// C06: a provider that disappears, reappears (with the same or a newer record)
+// and disappears again gets a full time-to-live from its last disappearance.
+func VerifC06_Reappear() {
+	w := c06new()
+	w.seed()
+	w.refreshAbsent() // disappears: removal timer armed
+	if verif_Bool("tickBeforeReappearing") {
+		w.tick()
+	}
+	w.refresh(false, false) // arbitrary content: may reappear with the same, a newer or an older time
+	w.tick()
+	w.refreshAbsent()
+	if verif_Bool("secondRound") {
+		w.tick()
 		w.refreshAbsent()
 	}
 	verif_Reach("history done")
